@@ -290,18 +290,9 @@ func encodeJsonLines(ctx context.Context, fp io.Writer, view *View, options opti
 	e := txjson.NewEncoder()
 	e.EscapeType = options.JsonEscape
 	e.LineBreak = options.LineBreak
-	e.PrettyPrint = options.PrettyPrint
+	// In JSON Lines every value is written on one line, so the values are never pretty-printed.
+	e.PrettyPrint = false
 	e.FloatFormat = jsonFloatFormat(options.ScientificNotation)
-	if options.PrettyPrint && options.Color {
-		e.Palette = palette
-	}
-	defer func() {
-		if options.Color {
-			palette.Enable()
-		} else {
-			palette.Disable()
-		}
-	}()
 
 	lineBreak := e.LineBreak.Value()
 	w := bufio.NewWriter(fp)
